@@ -5,7 +5,7 @@
 //! Case line:  sa <target addr hex> <fee a> <fee b> <coins_per_utxo_byte> <max_value_size> <max_tx_size> <n>
 //!             then per UTxO: <txid hex> <index> <owner kind> <pay key id> <stake key id> <addr hex> <coin> <multiasset>
 //!             multiasset = `~` (None) | <npolicies> { <policy hex> <nassets> { <name hex|-> <quantity> } }
-//! Result:     ok <k> { <tx hex> <signed tx hex> }  |  err  |  panic
+//! Result:     ok <k> { <tx hex> <signed tx hex> } | <hook H2 traces> | <bootstrap witness sizes> | <real figures>   or  err  or  panic
 //! The signed transaction has the same body and a witness set with one real Ed25519 vkey witness per distinct
 //! payment key and one real Icarus bootstrap witness per distinct Byron address among the spent UTxOs (the keys
 //! are derived from the key ids in the case line).  Everything else (partition, balance, fee, sizes, min ADA)
@@ -162,7 +162,9 @@ fn exec(keys: &mut Keys, toks: &[String]) -> String {
         .pool_deposit(&BigNum::from(500_000_000u64)).key_deposit(&BigNum::from(2_000_000u64))
         .max_value_size(c.mvs).max_tx_size(c.mts).coins_per_utxo_byte(&BigNum::from(c.cpb))
         .build().expect("config");
+    let _ = verif_hooks_c13::take_send_all_traces();
     let res = std::panic::catch_unwind(std::panic::AssertUnwindSafe(|| create_send_all(&target, &utxos, &cfg)));
+    let traces = verif_hooks_c13::take_send_all_traces();
     match res {
         Err(_) => "panic".into(),
         Ok(Err(_)) => "err".into(),
@@ -174,6 +176,27 @@ fn exec(keys: &mut Keys, toks: &[String]) -> String {
                 let signed = sign(keys, &c, tx);
                 s.push_str(&format!(" {} {}", hex::encode(tx.to_bytes()), hex::encode(signed.to_bytes())));
             }
+            // hook H2: the primitive operations applied to every finished proposal, with the calculator's figures
+            s.push_str(&format!(" | {}", traces.len()));
+            for t in &traces { s.push_str(&format!(" {}", t.len())); for item in t { s.push_str(&format!(" {}", item)); } }
+            // sizes of the fake bootstrap witnesses of the Byron owners (what get_boostrap_witness_size measures), per UTxO
+            s.push_str(&format!(" | {}", c.us.len()));
+            let zero = TransactionHash::from_bytes(vec![0u8; 32]).unwrap();
+            for u in &c.us {
+                let sz = match Address::from_bytes(u.addr.clone()).ok().and_then(|a| ByronAddress::from_address(&a)) {
+                    Some(b) => make_icarus_bootstrap_witness(&zero, &b, &keys.get(u.pay)).to_bytes().len(),
+                    None => 0,
+                };
+                s.push_str(&format!(" {}", sz));
+            }
+            // the real figures of every returned transaction: size, fee, and per output coin : output size : value size
+            s.push_str(" |");
+            for tx in &txs {
+                let outs = tx.body().outputs();
+                let mut os = Vec::new();
+                for i in 0..outs.len() { let o = outs.get(i); os.push(format!("{}:{}:{}", o.amount().coin().to_str(), o.to_bytes().len(), o.amount().to_bytes().len())); }
+                s.push_str(&format!(" {},{},{}", tx.to_bytes().len(), tx.body().fee().to_str(), os.join(";")));
+            }
             s
         }
     }
@@ -181,6 +204,7 @@ fn exec(keys: &mut Keys, toks: &[String]) -> String {
 
 // ------------------------------------------------------------------------------------------ generators
 
+#[derive(Clone, Copy)]
 struct Cfg { a: u64, b: u64, cpb: u64, mvs: u32, mts: u32 }
 
 fn gen_cfg(r: &mut Rng) -> Cfg {
@@ -288,6 +312,105 @@ fn gen_case(r: &mut Rng, keys: &mut Keys, idx: u64) -> Case {
     Case { target, a: cfg.a, b: cfg.b, cpb: cfg.cpb, mvs: cfg.mvs, mts: cfg.mts, us }
 }
 
+/// targeted families: width-class boundaries of the last output's coin, of counts (inputs, witnesses, assets, policies)
+/// and of summed quantities; forced splitting into many outputs / many transactions
+fn gen_targeted(r: &mut Rng, keys: &mut Keys, fam: u64) -> Case {
+    let std = Cfg { a: 44, b: 155381, cpb: 4310, mvs: 5000, mts: 16384 };
+    let mut cfg = std;
+    let mut us: Vec<U> = Vec::new();
+    let owner = (0u64, 1000 + r.below(50), 5000 + r.below(50));
+    let mk = |keys: &mut Keys, o: (u64, u64, u64), i: usize, coin: u64, ma: Option<Vec<(Vec<u8>, Vec<(Vec<u8>, u64)>)>>| {
+        let addr = make_address(keys, o.0, o.1, o.2).to_bytes();
+        let mut txid = vec![0x22u8; 32]; txid[0] = (i % 4) as u8;
+        U { txid, ix: i as u32, kind: o.0, pay: o.1, stake: o.2, addr, coin, ma }
+    };
+    match fam {
+        0 => {
+            // total ADA = boundary + about one fee (+- a few bytes' worth): the coin of the last output sits at a width boundary
+            let (bnd, cpb) = *r.pick(&[(1u64 << 32, 4310u64), (1u64 << 32, 4310), (65536, 1), (65536, 0), (256, 0), (24, 0), (1u64 << 32, 100)]);
+            cfg.cpb = cpb;
+            let n = r.range(1, 3) as usize;
+            let fee_guess = 155381 + 44 * (190 + 36 * n as u64 + r.below(12));
+            let total = bnd + fee_guess + r.range(0, 2000) - 1000 + if r.chance(1, 3) { fee_guess } else { 0 };
+            let mut left = total;
+            for i in 0..n {
+                let c = if i + 1 == n { left } else { let x = r.range(1, (left / 2).max(2)); left -= x; x };
+                us.push(mk(keys, owner, i, c, None));
+            }
+        }
+        1 => {
+            // 20..30 inputs and 20..30 distinct key owners in one transaction (array / set heads 1 -> 2 bytes)
+            let n = r.range(20, 30) as usize;
+            let distinct = r.chance(1, 2);
+            let byron = r.chance(1, 4);
+            for i in 0..n {
+                let o = if distinct { (if byron && r.chance(1, 2) { 4 } else { *r.pick(&[0u64, 2, 3]) }, 2000 + i as u64, 7000 + i as u64) } else { owner };
+                us.push(mk(keys, o, i, r.range(1_500_000, 9_000_000), None));
+            }
+        }
+        2 | 3 => {
+            // one asset spread over several UTxOs so that the summed quantity crosses a width boundary; many assets of one
+            // policy (20..30: map head 1 -> 2 bytes), names of 22..25 bytes
+            let bnd = *r.pick(&[24u64, 256, 65536, 1u64 << 32]);
+            let k = r.range(2, 5) as usize;
+            let pid = r.bytes(28);
+            let nassets = if fam == 3 { r.range(20, 30) as usize } else { r.range(1, 3) as usize };
+            let names: Vec<Vec<u8>> = (0..nassets).map(|a| { let l = r.range(22, 25) as usize; let mut n = r.bytes(l); n[0] = a as u8; n }).collect();
+            for i in 0..k {
+                let assets: Vec<(Vec<u8>, u64)> = names.iter().map(|nm| {
+                    let q = if r.chance(2, 3) { (bnd / k as u64).max(1) + r.below(3) - 1 } else { r.range(1, 5) };
+                    (nm.clone(), q.max(1))
+                }).collect();
+                us.push(mk(keys, owner, i, r.range(1_200_000, 4_000_000), Some(vec![(pid.clone(), assets)])));
+            }
+            us.push(mk(keys, owner, 50, r.range(5_000_000, 50_000_000), None));
+        }
+        4 => {
+            // many policies in one output (20..30: map head 1 -> 2 bytes)
+            let np = r.range(20, 30) as usize;
+            let ps: Vec<(Vec<u8>, Vec<(Vec<u8>, u64)>)> = (0..np).map(|p| { let mut pid = r.bytes(28); pid[0] = p as u8; let l = r.range(0, 4) as usize; (pid, vec![(r.bytes(l), r.range(1, 300))]) }).collect();
+            let half = np / 2;
+            us.push(mk(keys, owner, 0, r.range(3_000_000, 9_000_000), Some(ps[..half].to_vec())));
+            us.push(mk(keys, owner, 1, r.range(3_000_000, 9_000_000), Some(ps[half..].to_vec())));
+            if r.chance(1, 2) { us.push(mk(keys, owner, 2, r.range(3_000_000, 9_000_000), Some(ps[half / 2..half + 3].to_vec()))); }
+        }
+        5 => {
+            // small max_value_size: the assets of one UTxO are split over many outputs
+            cfg.mvs = r.range(80, 300) as u32;
+            let np = r.range(2, 6) as usize;
+            let ps: Vec<(Vec<u8>, Vec<(Vec<u8>, u64)>)> = (0..np).map(|p| { let mut pid = r.bytes(28); pid[0] = p as u8;
+                (pid, (0..r.range(1, 8)).map(|a| { let l = r.range(1, 32) as usize; let mut n = r.bytes(l); n[0] = a as u8; (n, r.range(1, 100_000)) }).collect()) }).collect();
+            us.push(mk(keys, owner, 0, r.range(20_000_000, 90_000_000), Some(ps.clone())));
+            if r.chance(1, 2) { us.push(mk(keys, owner, 1, r.range(2_000_000, 9_000_000), Some(ps[..1].to_vec()))); }
+            us.push(mk(keys, owner, 2, r.range(20_000_000, 90_000_000), None));
+        }
+        6 => {
+            // small max_tx_size: many transactions; asset UTxOs short of ADA are topped up with pure-ADA UTxOs
+            cfg.mts = r.range(450, 1100) as u32;
+            let n = r.range(10, 40) as usize;
+            let pid = r.bytes(28);
+            for i in 0..n {
+                if r.chance(1, 2) {
+                    let nm = vec![(i % 5) as u8; r.range(1, 6) as usize];
+                    us.push(mk(keys, owner, i, r.range(900_000, 1_400_000), Some(vec![(pid.clone(), vec![(nm, r.range(1, 1000))])])));
+                } else {
+                    us.push(mk(keys, owner, i, r.range(300_000, 3_000_000), None));
+                }
+            }
+        }
+        _ => {
+            // barely enough ADA: the top-up UTxOs just cover (or just miss) the shortage
+            let pid = r.bytes(28);
+            us.push(mk(keys, owner, 0, r.range(900_000, 1_100_000), Some(vec![(pid, vec![(vec![1, 2, 3], 5)])])));
+            let need = 1_133_530 + 168_537 - 1_000_000;
+            let k = r.range(1, 3) as usize;
+            for i in 0..k { us.push(mk(keys, owner, 1 + i, need / k as u64 + r.range(0, 3000) - 1500 + (i as u64) * 1600, None)); }
+        }
+    }
+    let target = make_address(keys, 0, 77, 99).to_bytes();
+    Case { target, a: cfg.a, b: cfg.b, cpb: cfg.cpb, mvs: cfg.mvs, mts: cfg.mts, us }
+}
+
 fn gen(dir: &str) {
     let seed = seed_from_env();
     let thorough = is_thorough();
@@ -296,7 +419,7 @@ fn gen(dir: &str) {
     let mut out = Out::new(dir);
     let n = if thorough { 2500 } else { 320 };
     for i in 0..n {
-        let c = gen_case(&mut r, &mut keys, i);
+        let c = if i % 5 < 2 { let fam = r.below(8); gen_targeted(&mut r, &mut keys, fam) } else { gen_case(&mut r, &mut keys, i) };
         let line = case_line(&c);
         let toks: Vec<String> = line.split_whitespace().map(|s| s.to_string()).collect();
         let res = exec(&mut keys, &toks);
